@@ -261,7 +261,7 @@ class BodyMixin:
         markup = None
         mp = MULTIPART_BOUNDARY_PATT.match(self.environ.get('CONTENT_TYPE', ''))
         if mp is not None:
-            markup = MultipartMarkup(mp.group(1))
+            markup = MultipartMarkup(mp.group(1).strip('"'))
         try:
             body = _body_read(
                 self.environ['wsgi.input'].read,
